@@ -49,6 +49,9 @@ type verifOp struct {
 	Gi   int     `json:"gi"`
 	TTL  int     `json:"ttl"`
 	Go   bool    `json:"go"` // del / exec: issued from a goroutine of its own, locked to another OS thread
+	// del / exec: the call is made with a request-scoped context that is cancelled as soon as the call has
+	// returned, i.e. before any retry of a failed delete fires
+	CtxC bool `json:"ctxc"`
 }
 
 type verifCase struct {
@@ -710,17 +713,28 @@ func verifRunCase(c verifCase) any {
 			for _, k := range op.Keys {
 				ks = append(ks, r.keyName(k))
 			}
-			del := func() error { return r.cache.DelCtx(ctx, ks...) }
+			dctx, dcancel := ctx, func() {}
+			if op.CtxC {
+				dctx, dcancel = context.WithCancel(ctx)
+			}
+			del := func() error { return r.cache.DelCtx(dctx, ks...) }
 			if op.Go {
 				del = func() error {
 					ch := make(chan error)
 					go func() {
 						runtime.LockOSThread() // not released: the thread ends with the goroutine
-						ch <- r.cache.DelCtx(ctx, ks...)
+						ch <- r.cache.DelCtx(dctx, ks...)
 					}()
 					return <-ch
 				}
 			}
+			del = func(inner func() error) func() error {
+				return func() error {
+					err := inner()
+					dcancel() // the request is over
+					return err
+				}
+			}(del)
 			if r.real {
 				before := verifWheelSize(timingWheel)
 				o["r"] = verifErr(del())
